@@ -54,8 +54,10 @@ CLAIMED = {
          "runs against the real server (virtual socket) under a watchdog; TLC (HostileTrace) checks the contract: finished in "
          "time, well-framed replies only, closed at the end, tag shapes intact, a tag changed only by an acknowledged / intact "
          "write, a following session served correctly.  The datagram service (spec/Udp.tla, model-checked; UdpTrace) gets the same octets as "
-         "datagrams between well-formed ones from several peers: every well-formed datagram is answered as if alone.",
-         "5/C08", "virtual TCP socket and scripted UDP recvfrom (no kernel sockets); byte-level fuzz is sampling; a failing bundle may have executed well-formed member writes",
+         "datagrams between well-formed ones from several peers: every well-formed datagram is answered as if alone.  "
+         "Request routing: a second simulator process behind a delaying relay is the target of the first one's port/link route; a hostile session's "
+         "routed request with a 10 ms timeout precedes other sessions' routed and local requests, each of which must get its own answer (RouteTrace).",
+         "5/C08", "virtual TCP socket and scripted UDP recvfrom (no kernel sockets) except the routing scenarios (loopback TCP, wall-clock delays); byte-level fuzz is sampling; a failing bundle may have executed well-formed member writes",
          "TLC-enumerated structure-aware mutation plans + seeded fuzz replayed on the real server; contract decided by TLC trace spec"),
  "C17": ("exploration",
          "spec/Times.tla (integer microseconds): TLC checks the order law on a window of instants around a second boundary, the zone "
